@@ -2,7 +2,7 @@
    Algorithm model: C12_Model.v part 1 (transcription of Flag_complex_edge_collapser.h); specification model: part 2
    (barcode of the flag filtration through ReduceExec.certified_lows).  Proofs: C12_Proofs.v. *)
 From Coq Require Import ZArith List Bool Sorting.Sorted.
-Require Import Reduce ReduceExec C12_Model C12_Proofs.
+Require Import Reduce ReduceExec C12_Model C12_Proofs C12_Tables.
 Import ListNotations.
 Local Open Scope Z_scope.
 
@@ -81,6 +81,29 @@ Example C12_dominated_iff_nonvacuous :
   /\ process_edges true ex_graph = Some [(2, 3, Fin 4); (1, 2, Fin 2); (0, 1, Fin 1)]
   /\ process_edges false ex_graph = Some [(2, 3, Fin 4); (1, 2, Fin 2); (0, 1, Fin 1)].
 Proof. vm_compute. repeat split; reflexivity. Qed.
+
+(* On every simple graph (no repeated edge, no loop, labels >= 0) the whole sweep returns the same list with the default
+   neighbour table and with GUDHI_COLLAPSE_USE_DENSE_ARRAY: the dense table stays a faithful copy of the sorted
+   neighbourhoods through read_edges, delay_neighbor and remove_neighbor, so every domination test agrees. *)
+Theorem C12_table_variants_agree : forall (es : list edge),
+  NoDup (map ekey es) -> (forall u v t, In (u, v, t) es -> 0 <= u /\ 0 <= v /\ u <> v) ->
+  process_edges true es = process_edges false es.
+Proof. exact tables_agree'. Qed.
+Print Assumptions C12_table_variants_agree.
+
+Theorem C12_table_variants_agree_entry_point : forall (es : list edge),
+  NoDup (map ekey es) -> (forall u v t, In (u, v, t) es -> 0 <= u /\ 0 <= v /\ u <> v) ->
+  flag_complex_collapse_edges true es = flag_complex_collapse_edges false es.
+Proof. exact tables_agree_entry_point'. Qed.
+Print Assumptions C12_table_variants_agree_entry_point.
+
+Example C12_table_variants_agree_nonvacuous :
+  NoDup (map ekey ex_graph) /\ (forall u v t, In (u, v, t) ex_graph -> 0 <= u /\ 0 <= v /\ u <> v).
+Proof.
+  split.
+  - vm_compute. repeat constructor; cbn; intuition congruence.
+  - intros u v t [H|[H|[H|[H|[]]]]]; inversion H; subst; repeat split; discriminate.
+Qed.
 
 (* The decisive clause of the property.  NOT proved here: it is the theorem of Boissonnat-Pritam (SoCG 2020) and
    Glisse-Pritam (SoCG 2022) that removing / delaying dominated edges preserves the persistence module of the flag
